@@ -258,6 +258,50 @@ func (t *Input) reflectSet(rv reflect.Value, v interface{}) (err error) {
 	return fmt.Errorf("can not coerce a %T into a %s", v, rv.Kind())
 }
 
+// defaultLoop looks for a field default that needs itself to be filled in,
+// "input A { a: A = {} }" for example where the default of a is an object
+// that lacks a and so gets the default of a and so on. v is a value of type
+// ft and busy the fields the defaults of which are being followed. The name of
+// the field the loop closes on is returned or an empty string if there is no
+// loop.
+func defaultLoop(ft Type, v interface{}, busy map[*InputField]bool) string {
+	switch tt := ft.(type) {
+	case *NonNull:
+		return defaultLoop(tt.Base, v, busy)
+	case *List:
+		if list, ok := v.([]interface{}); ok {
+			for _, m := range list {
+				if name := defaultLoop(tt.Base, m, busy); 0 < len(name) {
+					return name
+				}
+			}
+		}
+	case *Input:
+		obj, ok := v.(map[string]interface{})
+		if !ok {
+			break
+		}
+		for _, f := range tt.fields.list {
+			if mv := obj[f.N]; mv != nil {
+				if name := defaultLoop(f.Type, mv, busy); 0 < len(name) {
+					return name
+				}
+			} else if f.Default != nil {
+				if busy[f] {
+					return tt.N + "." + f.N
+				}
+				busy[f] = true
+				name := defaultLoop(f.Type, f.Default, busy)
+				delete(busy, f)
+				if 0 < len(name) {
+					return name
+				}
+			}
+		}
+	}
+	return ""
+}
+
 // Validate a type.
 func (t *Input) Validate(root *Root) (errs []error) {
 	if 0 < t.fields.Len() { // must have at least one field
